@@ -465,7 +465,9 @@ numeric vectors.  If it returns `ok (r, pr)` in a numeric mode (names distinct),
 * the keys of `r` / `pr` are exactly the reactants / products given, in order (sorted when passed as a set),
 * the coefficients are integers `kr`, `kp`, all positive, jointly coprime,
 * the substances were resolved from THIS call's table (`resolve_lookup` says how), and for EVERY composition key
-  `ck` the total over the reactants equals the total over the products, computed from those compositions. -/
+  `ck : ℤ` — element or net charge (key 0), whether or not it occurs (`mem_compositionKeys`: `composition_keys` holds
+  every key of every substance; an absent key has amount 0 everywhere) — the total over the reactants equals the total over
+  the products, computed from those compositions. -/
 theorem balance_end_to_end (mode : Mode) (hm : mode ≠ .symbolic) (solver : Mat → Candidate)
     (hsolver : ∀ A, ∃ v, solver A = .numeric v) (table : List (String × Comp)) (arg : SubstArg)
     (rset pset : Bool) (reac prod : List String) (r pr : List (String × Entry))
@@ -477,7 +479,7 @@ theorem balance_end_to_end (mode : Mode) (hm : mode ≠ .symbolic) (solver : Mat
       ∃ subs rc pc, resolve table arg reac prod = some subs ∧
         lookupAll subs (if rset then sortedSet reac else reac) = some rc ∧
         lookupAll subs (if pset then sortedSet prod else prod) = some pc ∧
-        ∀ ck ∈ compositionKeys subs, dot (rc.map (·.get ck)) (toQ kr) = dot (pc.map (·.get ck)) (toQ kp) := by
+        ∀ ck : ℤ, dot (rc.map (·.get ck)) (toQ kr) = dot (pc.map (·.get ck)) (toQ kp) := by
   generalize her : (if rset then sortedSet reac else reac) = er at *
   generalize hep : (if pset then sortedSet prod else prod) = ep at *
   unfold balanceVia at h
@@ -560,6 +562,11 @@ theorem balance_end_to_end (mode : Mode) (hm : mode ≠ .symbolic) (solver : Mat
               · obtain ⟨rc, pc, hrc, hpc, hiff⟩ := setup_balances _ A hsetup (toQ (ks.take er.length))
                   (toQ (ks.drop er.length)) (by simp [toQ, hle])
                 refine ⟨subs, rc, pc, hres, hrc, hpc, ?_⟩
+                intro ck
+                by_cases hck : ck ∈ compositionKeys subs
+                swap
+                · rw [dot_absent_key subs _ rc _ ck hrc hck, dot_absent_key subs _ pc _ ck hpc hck]
+                revert ck hck
                 apply hiff.1
                 have : toQ (ks.take er.length) ++ toQ (ks.drop er.length) = toQ ks := by
                   conv_rhs => rw [hsplit]
@@ -666,5 +673,20 @@ example (mode : Mode) (v : Vec) (x : List Entry)
     (h : gate mode [[-2, 0, 1, 0], [-2, 0, 0, 2], [0, -2, 1, 1]] (.numeric v) = .ok x) :
     x = toEntries [2, 3, 4, 2] :=
   single_ray_answer mode _ v x [2, 3, 4, 2] (by decide) (by decide) acetylene_single_ray hsym h
+
+/-- the headline theorems are not vacuous: the whole modelled call returns for C2H2 + O2 -> CO + H2O (dict of compositions,
+solver answer (1, 3/2, 2, 1)), and refuses with the positivity ValueError for the wrong-side C + CO -> CO2 -/
+example : balanceVia .strict (fun _ => .numeric [1, 3/2, 2, 1])
+    [("C2H2", [(6, 2), (1, 2)]), ("O2", [(8, 2)]), ("CO", [(6, 1), (8, 1)]), ("H2O", [(1, 2), (8, 1)])]
+    .mapping false false ["C2H2", "O2"] ["CO", "H2O"]
+    = .ok ([("C2H2", .num 2), ("O2", .num 3)], [("CO", .num 4), ("H2O", .num 2)]) := by decide +kernel
+
+example : balanceVia .smallest (fun _ => .numeric [-1, 2, 1])
+    [("C", [(6, 1)]), ("CO", [(6, 1), (8, 1)]), ("CO2", [(6, 1), (8, 2)])]
+    .factory false false ["C", "CO"] ["CO2"] = .error (.valueError "nonpositive") := by decide +kernel
+
+/-- `underdetermined=1` with duplicates is a NotImplementedError (the test is on the raw argument), `None` searches -/
+example : balanceCall .one true (fun _ => .numeric [2, 1]) [("C", [(6, 1)]), ("CO", [(6, 1), (8, 1)]), ("CO2", [(6, 1), (8, 2)])]
+    .mapping ["C", "CO"] ["C", "CO", "CO2"] = .error .notImplemented := by decide +kernel
 
 end ChemModel.C02
